@@ -632,6 +632,10 @@ func (e *Exec) branch(st *State, s *ast.BranchStmt) {
 			}
 		}
 	case token.CONTINUE:
+		// `callsite continue name: P`: P must hold wherever the function under contract skips the rest of an iteration
+		if len(e.frames) == 1 {
+			e.builtinSiteChecks(st, "continue", nil, &ast.CallExpr{Fun: &ast.Ident{Name: "continue", NamePos: s.Pos()}, Lparen: s.Pos(), Rparen: s.End()})
+		}
 		for i := len(f.jumps) - 1; i >= 0; i-- {
 			j := f.jumps[i]
 			if j.isLoop && (label == "" || j.label == label) {
